@@ -220,6 +220,26 @@ impl ResourceChecker<Res> for Chk {
   fn wrap_error(&self, error: CellErr) -> ChkErr { ChkErr(error.0) }
 }
 
+/// The same checker with a *unit* stamp: used for some reads with kind `Always`, whose stamp carries no information
+/// anyway (a checker is free to keep everything it needs in itself and in the resource state).
+#[derive(Clone, Copy, PartialEq, Eq, Hash)]
+pub struct ChkU(pub Chk);
+impl Debug for ChkU { fn fmt(&self, f: &mut fmt::Formatter<'_>) -> fmt::Result { self.0.fmt(f) } }
+
+impl ResourceChecker<Res> for ChkU {
+  type Stamp = ();
+  type Error = ChkErr;
+  fn stamp<RS: ResourceState<Res>>(&self, resource: &Res, state: &mut RS) -> Result<(), ChkErr> { self.0.stamp(resource, state).map(|_| ()) }
+  fn stamp_reader(&self, resource: &Res, reader: &mut CellReader<'_>) -> Result<(), ChkErr> { self.0.stamp_reader(resource, reader).map(|_| ()) }
+  fn stamp_writer(&self, resource: &Res, writer: CellWriter<'_>) -> Result<(), ChkErr> { self.0.stamp_writer(resource, writer).map(|_| ()) }
+  fn check<RS: ResourceState<Res>>(&self, resource: &Res, state: &mut RS, _stamp: &()) -> Result<Option<impl Debug>, ChkErr> {
+    // (only used with kind Always, whose abstraction of every value is 0)
+    static NOTHING: St = St(0);
+    self.0.check(resource, state, &NOTHING)
+  }
+  fn wrap_error(&self, error: CellErr) -> ChkErr { ChkErr(error.0) }
+}
+
 // ---------------------------------------------------------------------------------------------------------------
 // Output checker
 // ---------------------------------------------------------------------------------------------------------------
